@@ -69,6 +69,8 @@ int main (void)
     printf ("Definition sizeof_m_msg : N := %u.\n", (unsigned) sizeof (struct m_msg));
     printf ("Definition off_addr : N := %u.\n", (unsigned) offsetof (struct m_msg, addr));
     /* measured: largest addr_len the DEC_RSP unpacker accepts */
-    printf ("Definition addr_len_accept_max : N := %d.\n", accept_max ());
+    { int k = accept_max ();                 /* -1: the unpacker accepts no DEC_RSP body at all */
+      printf ("Definition addr_len_accept_max : N := %d.\n", k < 0 ? 0 : k);
+      printf ("Definition dec_rsp_probe_accepted : bool := %s.\n", k < 0 ? "false" : "true"); }
     return 0;
 }
